@@ -68,7 +68,9 @@ func SiblingRequest() *Request {
 		RPC("GetSpecial", pkg+".Empty", pkg+".Resp", "GET", "/items/special"),
 		RPC("Update", pkg+".Upd", pkg+".Resp", "PUT", "/items/{id}"),
 		RPC("UpdateOpt", pkg+".UpdOpt", pkg+".Resp", "PATCH", "/items/{id}"),
+		RPC("Search", pkg+".SearchReq", pkg+".Resp", "GET", "/search/{id}"),
 	)}
+	f.Messages = append(f.Messages, M("SearchReq", F("id", 1, "string"), F("limit", 2, "int32", Query("limit", true)), F("q", 3, "string", Query("q", true)), F("page", 4, "int32", Query("page", false))))
 	r := OneFile(id, pkg, f)
 	r.Tags = []string{"runtime", "sibling"}
 	return r
@@ -77,7 +79,7 @@ func SiblingRequest() *Request {
 // RuntimeCatalogue: the schemas whose emitted Go code is compiled and driven.
 func RuntimeCatalogue() []*Request {
 	out := RouteCatalogue()
-	out = append(out, KindsRequest(), SiblingRequest(), DoubleSlashRequest(), NoSlashRequest())
+	out = append(out, KindsRequest(), SiblingRequest(), DoubleSlashRequest(), NoSlashRequest(), OddTemplateRequest())
 	return out
 }
 
@@ -103,5 +105,23 @@ func RawRequest() *Request {
 	)}
 	r := OneFile(id, pkg, f)
 	r.Tags = []string{"runtime", "server-only"}
+	return r
+}
+
+// OddTemplateRequest: a base path holding a variable and a literal segment containing an escape.
+func OddTemplateRequest() *Request {
+	id := "rtodd"
+	pkg := "rtodd.v1"
+	f := &File{Messages: []*Message{
+		M("Resp", F("ok", 1, "bool")),
+		M("TReq", F("tenant", 1, "string"), F("id", 2, "string"), F("note", 3, "string")),
+		M("PReq", F("id", 1, "string"), F("note", 2, "string")),
+	}}
+	f.Services = []*Service{
+		Svc("Tenanted", "/t/{tenant}", RPC("PutItem", pkg+".TReq", pkg+".Resp", "PUT", "/items/{id}")),
+		Svc("Pct", "/p", RPC("PutPct", pkg+".PReq", pkg+".Resp", "PUT", "/a%41/{id}"), RPC("PutOk", pkg+".PReq", pkg+".Resp", "PUT", "/plain/{id}")),
+	}
+	r := OneFile(id, pkg, f)
+	r.Tags = []string{"runtime", "odd-template"}
 	return r
 }
